@@ -331,17 +331,30 @@ def run(ctx: Ctx, rs: RuleSet, tier: str):
            'to the original child', ctx.loc(visit, visit.node))
   pr = ctx.func(f'{P}._promote_arg_factory')
   g = ctx.cfg(pr)
-  ok = False
-  for n in g.nodes():
-    if g.kind[n] == 'if':
-      t = unparse(g.stmt[n].test)
-      if 'isinstance(arg, _BuiltArgFactory)' in t and (
-          'not _contains_arg_factory(arg)' in t) and isinstance(
-              g.stmt[n].test, ast.BoolOp) and isinstance(
-                  g.stmt[n].test.op, ast.Or):
-        body = g.stmt[n].body
-        ok = len(body) == 1 and isinstance(body[0], ast.Return) and unparse(
-            body[0].value) == pr.params[0]
+  from fdlstatic import dispatch
+  argp = pr.params[0]
+
+  def atoms(is_factory, contains):
+    def ev(t):
+      if isinstance(t, ast.Call) and unparse(t.func) == 'isinstance' and len(
+          t.args) == 2 and unparse(t.args[0]) == argp and unparse(
+              t.args[1]) == '_BuiltArgFactory':
+        return is_factory
+      if isinstance(t, ast.Call) and unparse(t.func) == (
+          '_contains_arg_factory') and [unparse(a) for a in t.args] == [argp]:
+        return contains
+      return None
+    return ev
+
+  def returns_under(is_factory, contains):
+    r = dispatch.reach_atoms(g, atoms(is_factory, contains))
+    return {unparse(g.stmt[n].value) for n in r
+            if isinstance(g.stmt[n], ast.Return) and g.stmt[n].value is not None}
+
+  ok = (returns_under(True, None) == {argp} and
+        returns_under(None, False) == {argp} and
+        argp not in returns_under(False, True) and
+        bool(returns_under(False, True)))
   rs.check(ok, rule, f'{pr.qualname}',
            'arguments that are factories or contain none are returned as they '
            'are', ctx.loc(pr, pr.node))
